@@ -162,7 +162,7 @@ func main() {
 // the set of functions the explorer keeps opaque is final and the same for
 // all rules.
 func resolveAnchors(w *World) {
-	w.setInlineBudget(0)
+	w.setInlineBudget(anchorInlineIfs)
 	machines(w)
 	Anchors(w)
 	Asm(w)
